@@ -134,6 +134,11 @@ def apply_op(f, op, local=False):
         elif k == "close":
             f.close()
             v = None
+        elif k == "prefetch":
+            # remote-only hint; a local file has nothing to do
+            if not local:
+                f.prefetch()
+            v = None
         else:
             raise AssertionError(k)
     except Exception as e:  # noqa
@@ -237,6 +242,81 @@ def gen_program(rng, tw, mode, nsteps, big, clean=False):
     if not emit(("close",)):
         return None
     return ops, res
+
+
+# --------------------------------------------------------------------------
+# directed stratum: single reads that need more than one 32768-byte request
+# --------------------------------------------------------------------------
+BIG_MODES = ["r", "r+", "w+", "a+"]
+BIG_BUFSIZES = [8192, -1, 65536, 40000, 0, 2, 32768, 1]
+MAXREQ = 32768
+
+
+def draw_bigread_case(rng, k, name):
+    """k walks the product mode x bufsize class x prefetch deterministically."""
+    mode = BIG_MODES[k % 4]
+    bufsize = BIG_BUFSIZES[(k // 4) % len(BIG_BUFSIZES)]
+    prefetch = bool((k // 2 + k // 8) & 1)
+    size = rng.choice([65537, 70000, 98304, 131072, rng.randint(65537, 220000)])
+    # few newlines: readline()/readlines() then also need several requests per call
+    body = bytearray(b"".join(b"%07x|" % i for i in range(size // 8 + 1))[:size])
+    for _ in range(rng.choice([0, 1, 3])):
+        body[rng.randrange(size)] = 10
+    short = rng.choice([None, None, ["fixed", rng.randint(9000, 32767)], ["cycle", [rng.randint(5000, 32768) for _ in range(3)]]])
+    return dict(mode=mode, bufsize=bufsize, pipelined=rng.random() < 0.3, big=True, clean=True, name=name, bigread=True,
+                prefetch=prefetch, short=short, nsteps=0, content=bytes(body),
+                init=None if mode == "w+" else bytes(body))
+
+
+def gen_bigread_program(rng, tw, case):
+    ops, res = [], []
+    size = len(case["content"])
+
+    def emit(op):
+        r = tw.do(op)
+        ops.append(op)
+        res.append(r[:3])
+        return r[0] == "ok"
+
+    if case["mode"] == "w+":
+        cut = rng.choice([size, size // 2, 40000])
+        for part in (case["content"][:cut], case["content"][cut:]):
+            if part and not emit(("write", part)):
+                return None
+    if case["mode"] in ("w+", "a+") or rng.random() < 0.3:
+        if not emit(("seek", rng.choice([0, 0, rng.randint(0, 5000)]), 0)):
+            return None
+    if case["prefetch"]:
+        emit(("prefetch",))
+    for _ in range(rng.randint(2, 4)):
+        left = max(size - tw.a.tell(), 0)
+        c = rng.random()
+        if c < 0.5:
+            op = ("read", rng.choice([MAXREQ + 1, 40000, 65536, 65537, rng.randint(MAXREQ + 1, 200000), max(left - 1, MAXREQ + 1)]))
+        elif c < 0.7:
+            op = ("read", rng.choice([None, -1]))
+        elif c < 0.8 and not (1 < case["bufsize"] < 1024):  # readline() fetches bufsize bytes per request
+            op = ("readline", rng.choice([None, rng.randint(MAXREQ + 1, 150000)]))
+        elif c < 0.87:
+            op = ("readlines", None)
+        else:
+            op = ("seek", rng.randint(0, max(size - MAXREQ - 2, 0)), 0)
+        if not emit(op):
+            return None
+        if op[0] != "seek" and tw.a.tell() >= size and rng.random() < 0.7:
+            if not emit(("seek", rng.randint(0, max(size - MAXREQ - 2, 0)), 0)):
+                return None
+    if not emit(("tell",)) or not emit(("close",)):
+        return None
+    return ops, res
+
+
+def result_len(r):
+    if r[0] != "ok" or r[1] is None:
+        return 0
+    if isinstance(r[1], list):
+        return max([len(x) for x in r[1]] or [0])
+    return len(r[1]) if isinstance(r[1], (bytes, bytearray)) else 0
 
 
 # --------------------------------------------------------------------------
@@ -603,7 +683,10 @@ class LocalRun:
             return r
 
         tw.do = do
-        g = gen_program(rng, tw, case["mode"], case["nsteps"], case["big"], clean=case["clean"])
+        if case.get("bigread"):
+            g = gen_bigread_program(rng, tw, case)
+        else:
+            g = gen_program(rng, tw, case["mode"], case["nsteps"], case["big"], clean=case["clean"])
         self.final = tw.final()
         self.ok = g is not None
         self.ambiguous = tw.ambiguous
